@@ -2,6 +2,7 @@
 package main
 
 import (
+	"context"
 	"fmt"
 	"os"
 	"strings"
@@ -9,8 +10,10 @@ import (
 
 	v1 "github.com/fatedier/frp/pkg/config/v1"
 	"github.com/fatedier/frp/pkg/msg"
+	plugin "github.com/fatedier/frp/pkg/plugin/server"
 
 	"verif/mc/drv"
+	"verif/mc/peek"
 	"verif/mc/vs"
 	"verif/mc/vs/vnet"
 	cw "verif/mc/worlds/cliworld"
@@ -319,6 +322,23 @@ func userEcho(w *tw.World, src string, port int, payload string) string {
 	return ""
 }
 
+// rejectNth is an in-memory login plugin that refuses the n-th login it sees (a plugin that is temporarily unhappy, a
+// token being rotated, a clock that is off for a moment).
+type rejectNth struct {
+	n    int
+	seen *int
+}
+
+func (rejectNth) Name() string               { return "reject-nth" }
+func (rejectNth) IsSupport(op string) bool   { return op == plugin.OpLogin }
+func (r rejectNth) Handle(_ context.Context, _ string, _ any) (*plugin.Response, any, error) {
+	*r.seen++
+	if *r.seen == r.n {
+		return &plugin.Response{Reject: true, RejectReason: "not now"}, nil, nil
+	}
+	return &plugin.Response{Unchange: true}, nil, nil
+}
+
 // heal: real frps + real frpc + backend; the control connection dies in a way only one side notices (or both);
 // afterwards the tunnel must carry traffic again without operator action.
 func scHeal(how string) func(x *vs.Exec) {
@@ -341,8 +361,15 @@ func scHeal(how string) func(x *vs.Exec) {
 			return
 		}
 		ctl := w.ControlConn(cl)
+		seen := 1 // the first login has happened
+		if how == "halfopen-client-reject" {
+			// the first re-login is refused once; the client must come back under its own run id all the same
+			peek.F(w.Svc, "pluginManager").Interface().(*plugin.Manager).Register(rejectNth{n: 2, seen: &seen})
+		}
 		vs.SetInterest(true)
 		switch how {
+		case "halfopen-client-reject":
+			ctl.Peer.Sever()
 		case "halfopen-client":
 			// the client's end dies; the server notices nothing until its heartbeat timeout
 			ctl.Peer.Sever()
@@ -352,8 +379,17 @@ func scHeal(how string) func(x *vs.Exec) {
 			ctl.Close()
 			ctl.Peer.Close()
 		}
-		time.Sleep(40 * time.Second)
+		maxSessions := 0
+		for i := 0; i < 40; i++ {
+			time.Sleep(time.Second)
+			if n := len(w.Sessions()); n > maxSessions {
+				maxSessions = n
+			}
+		}
 		vs.SetInterest(false)
+		if maxSessions > 1 {
+			vs.Fail("control connection lost (%s): the server held %d sessions of the one client at the same time: the client did not come back under the run id it was given, so its old session was not replaced", how, maxSessions)
+		}
 		healed := false
 		for i := 0; i < 6 && !healed; i++ {
 			if e := userEcho(w, fmt.Sprintf("10.9.0.2:%d", 10+i), 20001, "after"); e == "" {
@@ -422,7 +458,7 @@ func main() {
 	if c == nil {
 		return
 	}
-	c.Rule("E1 on the virtual clock: (server) real frps vs scripted peer for heartbeat timeouts {3,10,90}s x ping periods x every second at which the peer falls silent or starts sending invalid heartbeats; (client) real frpc vs model server: silent server, and all fault sequences of length <= L over {unreachable for 0/1/30/300 s, login rejected, cut right after login, cut, heartbeats unanswered, restart} with the server down at start or not, and fault sequences of length <= 2 against a client with the default loginFailExit=true (whose first login succeeded); clients with 99 / 100 / 101 / 130 proxies (around the capacity of the session's send queue) that lose the control connection; oracle: drop within (timeout, timeout+2s], never for a live peer, resources released, self-healing within 60 s, a server that accepts logins and drops the session at once for a minute, never 3 failed connection attempts within 190 ms, <= 10 per second and <= 40 per minute; (tunnel) real frps + real frpc + backend: control connection severed on the client's side only, on the server's side only, or cut: the tunnel carries traffic again within 100 s, all schedules with at most B deviations; non-trivial = distinct observation trace")
+	c.Rule("E1 on the virtual clock: (server) real frps vs scripted peer for heartbeat timeouts {3,10,90}s x ping periods x every second at which the peer falls silent or starts sending invalid heartbeats; (client) real frpc vs model server: silent server, and all fault sequences of length <= L over {unreachable for 0/1/30/300 s, login rejected, cut right after login, cut, heartbeats unanswered, restart} with the server down at start or not, and fault sequences of length <= 2 against a client with the default loginFailExit=true (whose first login succeeded); clients with 99 / 100 / 101 / 130 proxies (around the capacity of the session's send queue) that lose the control connection; oracle: drop within (timeout, timeout+2s], never for a live peer, resources released, self-healing within 60 s, a server that accepts logins and drops the session at once for a minute, never 3 failed connection attempts within 190 ms, <= 10 per second and <= 40 per minute; (tunnel) real frps + real frpc + backend: control connection severed on the client's side only (also with the first re-login refused by a plugin: never two sessions of the one client), on the server's side only, or cut: the tunnel carries traffic again within 100 s, all schedules with at most B deviations; non-trivial = distinct observation trace")
 	pool := vs.GetPool(c.Workers)
 	var names []string
 	for _, T := range []int{3, 10, 90} {
@@ -504,7 +540,7 @@ func main() {
 		c.ExploreBoth(n, 0, 0.1)
 	}
 	// real frps + real frpc: the tunnel heals after the control connection dies on one side or on both
-	for _, n := range []string{"heal/halfopen-client", "heal/halfopen-server", "heal/cut"} {
+	for _, n := range []string{"heal/halfopen-client", "heal/halfopen-server", "heal/cut", "heal/halfopen-client-reject"} {
 		c.ExploreBoth(n, drv.Pick(c, 1, 2), 0.34)
 	}
 	c.Finish()
